@@ -57,14 +57,18 @@ __all__ = [
 ]
 
 
-def FixedSizeString(size_: int, len_type_: Union[DataType, Type[DataType]] = UDINT):
+def FixedSizeString(
+    size_: int, len_type_: Union[DataType, Type[DataType]] = UDINT, padding_: int = 0
+):
     """
-    Creates a custom string tag type
+    Creates a custom string tag type, ``size_`` is the capacity of the string in characters and
+    ``padding_`` the number of pad bytes that follow the characters in the structure
     """
 
     class FixedSizeString(StringDataType):
         size = size_
         len_type = len_type_
+        padding = padding_
 
         @classmethod
         def _encode(cls, value: str, *args, **kwargs) -> bytes:
@@ -72,13 +76,13 @@ def FixedSizeString(size_: int, len_type_: Union[DataType, Type[DataType]] = UDI
             return (
                 cls.len_type.encode(len(value))
                 + value.encode(cls.encoding)
-                + b"\x00" * (cls.size - len(value))
+                + b"\x00" * (cls.size - len(value) + cls.padding)
             )
 
         @classmethod
         def _decode(cls, stream: BytesIO) -> str:
             _len = cls.len_type.decode(stream)
-            _data = cls._stream_read(stream, cls.size)[:_len]
+            _data = cls._stream_read(stream, cls.size + cls.padding)[: min(_len, cls.size)]
             return _data.decode(cls.encoding)
 
     return FixedSizeString
